@@ -178,6 +178,7 @@ def gen_arm(ctx, binp):
     if any(v['cases'] == 0 for v in fam_counts.values()):
         raise Inconclusive('GEN: a family produced no case: %s' % fam_counts)
     ctx.cov['gen_constants'] = consts
+    ctx.cov['gen_families'] = fam_counts
     jp = os.path.join(ctx.build, 'gen_jobs.ndjson')
     vlib.write_ndjson(jp, jobs)
     ep = os.path.join(ctx.build, 'gen_events.ndjson')
